@@ -21,7 +21,7 @@ use vkit::run::{push_sample, Args, Run, Tier};
 use vkit::world::all_logs;
 use vkit::{clock, fsutil, gen};
 
-const OPS: [&str; 13] = [
+const OPS: [&str; 14] = [
     "create_secret",
     "update_secret",
     "delete_secret",
@@ -35,6 +35,7 @@ const OPS: [&str; 13] = [
     "change_folder_password",
     "sync_pull",
     "sync_merge",
+    "force_merge",
 ];
 
 #[derive(Clone, Serialize, Deserialize)]
@@ -164,6 +165,36 @@ async fn stage1(op: &str, sqlite: bool, shared: &Path, stride: usize) -> CaseInf
         }
         let account_id = dev.account_id;
         dev.close().await;
+        if op == "force_merge" {
+            // forced overwrite of the default folder with the log of another
+            // device (a copy of the account) on which two of its secrets were
+            // deleted and one updated: the new vault is shorter than the old
+            use sos_core::events::EventLog as _;
+            use sos_sync::StorageEventLogs;
+            let other = base.join("other-device");
+            fsutil::copy_dir(&pre, &other)?;
+            let mut d2 = Dev::open(&other, backend, account_id, vkit::acct::password()).await?;
+            let in_default = || AccessOptions { folder: Some(*default.id()), ..Default::default() };
+            let s0: sos_core::SecretId = ids["s0"].parse().unwrap();
+            let s2: sos_core::SecretId = ids["s2"].parse().unwrap();
+            let (m, s) = gen::secret("note", 1, "force-merged");
+            d2.account.update_secret(&s0, m, Some(s), in_default()).await?;
+            d2.account.delete_secret(&s2, in_default()).await?;
+            d2.account.delete_secret(&s0, in_default()).await?;
+            let diff = {
+                let log = d2.account.folder_log(default.id()).await?;
+                let log = log.read().await;
+                log.diff_unchecked().await?
+            };
+            d2.close().await;
+            let mut recs = vec![];
+            for r in diff.patch.iter() {
+                recs.push(hex::encode(sos_core::encode(r).await?));
+            }
+            let file = base.join("diff.json");
+            std::fs::write(&file, serde_json::to_vec(&json!({"records": recs, "checkpoint": hex::encode(sos_core::encode(&diff.checkpoint).await?)}))?)?;
+            ids.insert("diff_file".into(), file.to_string_lossy().to_string());
+        }
         info.account_id = account_id.to_string();
         info.ids = ids.clone();
         info.before = logs_of(&pre, account_id, backend).await?;
@@ -310,6 +341,22 @@ fn normalise(label: &str, case: &CaseInfo) -> String {
         out
     };
     let s = re_uuid(&s);
+    // a 64-digit hex run (e.g. the commit root in a snapshot file name)
+    let s = {
+        let b: Vec<char> = s.chars().collect();
+        let mut out = String::new();
+        let mut i = 0;
+        while i < b.len() {
+            if i + 64 <= b.len() && b[i..i + 64].iter().all(|c| c.is_ascii_hexdigit()) {
+                out.push_str("HASH");
+                i += 64;
+                continue;
+            }
+            out.push(b[i]);
+            i += 1;
+        }
+        out
+    };
     // drop byte counts
     let mut out = String::new();
     let mut skip = false;
